@@ -75,8 +75,10 @@ class ADX(Indicator):
         adx_negative = None
 
         if self.reading("high"):
-            up = self.reading("high") - self.reading("high", index - 1)
-            down = self.reading("low", index - 1) - self.reading("low")
+            up, down = 0, 0
+            if index > 0:
+                up = self.reading("high") - self.reading("high", index - 1)
+                down = self.reading("low", index - 1) - self.reading("low")
 
             positive = up if up > down and up > 0 else 0
             negative = down if down > up and down > 0 else 0
